@@ -128,11 +128,27 @@ type Exec struct {
 	goq      []func()
 	known    map[string]bool // known-finding classes (names) for this harness
 	trace    bool
+	deadline time.Time
+	cur      *frame
 }
 
 type lockKey struct {
 	obj *Object
 	off int64
+}
+
+// where describes the current interpreted call stack (innermost first).
+func (ex *Exec) where() string {
+	var sb strings.Builder
+	n := 0
+	for f := ex.cur; f != nil && n < 4; f = f.caller {
+		if n > 0 {
+			sb.WriteString(" <- ")
+		}
+		sb.WriteString(f.fn.Name())
+		n++
+	}
+	return sb.String()
 }
 
 func (ex *Exec) fail(st pathStatus, format string, args ...interface{}) {
@@ -201,7 +217,14 @@ func (ex *Exec) fetchModel() (Model, bool) {
 }
 
 // query checks pc ∧ extra. Returns "sat"/"unsat"/"unknown" and a model on sat.
+func (ex *Exec) checkDeadline() {
+	if !ex.deadline.IsZero() && time.Now().After(ex.deadline) {
+		panic(pathEnd{stBudget, "per-path wall-clock limit exceeded"})
+	}
+}
+
 func (ex *Exec) query(extra *Term) (string, Model) {
+	ex.checkDeadline()
 	ex.syncSolver()
 	if extra != nil {
 		n := ex.em.Name(ex.st, extra)
@@ -271,7 +294,7 @@ func (ex *Exec) record(d Decision) {
 	ex.journal = append(ex.journal[:ex.jpos], d)
 	ex.jpos++
 	if ex.jpos > ex.harness.MaxDepth {
-		ex.fail(stBudget, "fork depth %d exceeded", ex.harness.MaxDepth)
+		ex.fail(stBudget, "fork depth %d exceeded (%s)", ex.harness.MaxDepth, ex.where())
 	}
 }
 
@@ -421,6 +444,9 @@ func (ex *Exec) concretize(t *Term) uint64 {
 			}
 		}
 		eq := ex.st.Eq(t, mkConst(t.w, v))
+		if ex.jpos >= ex.harness.MaxDepth {
+			ex.fail(stBudget, "fork depth %d exceeded while enumerating values of %s (%s)", ex.harness.MaxDepth, t.String(), ex.where())
+		}
 		r, m := ex.query(ex.st.Not(eq))
 		if r != "unsat" {
 			ex.pushWork(Decision{Alt: 1, Val: v}, m)
@@ -571,7 +597,7 @@ func (p *Program) runPath(h *Harness, solver *Solver, item workItem, trace bool)
 		cow: map[*Object]*Object{}, cowMaps: map[*MapObj]*MapObj{},
 		nextObj: p.initObjs, nextMap: p.initMaps, maxSteps: h.MaxSteps, harness: h,
 		funcs: map[*ssa.Function]bool{}, locks: map[lockKey]int{}, known: h.Known,
-		strCache: map[string]*Object{}, trace: trace,
+		strCache: map[string]*Object{}, trace: trace, deadline: p.pathDeadline(),
 	}
 	ex.res = &PathResult{reach: map[string]bool{}}
 	if item.model != nil {
